@@ -264,8 +264,58 @@ CFGS = [{'normalize_outbound_headers': n, 'validate_outbound_headers': v}
         for n in (True, False) for v in (True, False)]
 
 
+def h_retry_after_refused():
+    """a server has sent its final response; a header block in trailer position is refused
+    (solver-chosen reason); the application tries again: whatever is then emitted in trailer
+    position satisfies the trailer rules (no pseudo-header fields, END_STREAM), exactly as if
+    the refused call had never been made"""
+    def h():
+        with h2h.native():
+            ctx = ops.Ctx(False)
+            ops.run_op(ctx, ('HEADERS', 1, 'req', False))
+            ops.run_op(ctx, ('send_headers', 1, 'resp', False))
+            ctx.me.data_to_send()
+        me = ctx.me
+        rec = EncoderRecorder()
+        me.encoder = rec
+        BLOCKS = {'pseudo': [(b':status', b'200'), (b'x', b'y')],
+                  'te': [(b'x-trailer', b'v'), (b'te', b'gzip')],
+                  'connection': [(b'connection', b'close')],
+                  'upper': [(b'X-Trailer', b'v')],
+                  'valid': [(b'x-trailer', b'v')]}
+        first = sym_choice('refused_block', ['pseudo', 'te', 'connection', 'valid-noend'])
+        try:
+            if first == 'valid-noend':
+                me.send_headers(1, BLOCKS['valid'], end_stream=False)
+            else:
+                me.send_headers(1, BLOCKS[first], end_stream=True)
+        except h2.exceptions.ProtocolError:
+            note('refused')
+        else:
+            note('first-accepted')
+            return
+        check(len(rec.blocks) == 0, 'refused-call-fed-the-encoder', first)
+        second = sym_choice('retry_block', ['pseudo', 'te', 'valid', 'upper'])
+        out = models.Out(me)
+        try:
+            me.send_headers(1, BLOCKS[second], end_stream=True)
+        except h2.exceptions.ProtocolError:
+            note('retry-refused')
+            check(second not in ('valid', 'upper'), 'valid-trailers-refused-after-refused-call',
+                  (first, second))
+            check(out.nbytes() == 0, 'refused-call-emits', None)
+            return
+        note('retry-emitted')
+        check(second in ('valid', 'upper'), 'nonconformant-block-emitted:after-refused-call',
+              (first, second))
+        shown = rec.blocks[-1]
+        check(O.conformant(shown, 'trailers'), 'nonconformant-block-emitted', None)
+    return h
+
+
 def shards(tier, seed):
-    out = []
+    out = [Shard('retry_after_refused/server', h_retry_after_refused(), twin=False,
+                 expect=['refused', 'retry-refused', 'retry-emitted'])]
 
     def add(block, cfg, rep, variant, nlen, vlen):
         cn = 'norm=%d,val=%d' % (cfg['normalize_outbound_headers'],
